@@ -3,6 +3,7 @@ package main
 import (
 	"fmt"
 	"go/types"
+	"os"
 	"regexp"
 	"sort"
 	"strconv"
@@ -65,7 +66,14 @@ func c03Proxy(c *Ctx, r *Report) {
 			Params: map[string]SV{"recv": symRef("h", false)},
 			ByType: map[string]SV{"layer4.Connection": symRef("down", false), "[]net.Conn": symSlice("ups", 2)},
 			Heap:   map[string]SV{"ups[0]": kind("up0", caps[1]), "ups[1]": kind("up1", caps[2]), "down.Conn": kind("down.Conn", caps[0])},
-			Inline: func(f *ssa.Function) bool { return f.Parent() != nil && fname(f.Parent()) == fnName },
+			Inline: func(f *ssa.Function) bool { // the closures of proxy(), nested ones included
+				for q := f.Parent(); q != nil; q = q.Parent() {
+					if fname(q) == fnName {
+						return true
+					}
+				}
+				return false
+			},
 		}
 		c03ProxyCalls(sc)
 		ps, err := evalPaths(fn, sc)
@@ -113,6 +121,12 @@ func c03ProxyCheck(c *Ctx, r *Report, fn *ssa.Function, fnName string, paths []P
 	for pi, p := range paths {
 		caps := pathCaps[pi]
 		tr := fmtTrace(p)
+		if os.Getenv("L4DEBUG") == "c03proxy" {
+			fmt.Println("DBG c03 path", pi, caps)
+			for _, e := range p.Trace {
+				fmt.Println("   ", e.Kind, e.What, e.Args, "in", e.In)
+			}
+		}
 		if p.Outcome != "return" {
 			p3 = append(p3, "path does not return: "+tr)
 			continue
@@ -193,6 +207,22 @@ func c03ProxyCheck(c *Ctx, r *Report, fn *ssa.Function, fnName string, paths []P
 					}
 				}
 			case e.Kind == "call" && e.What == "invoke net.Conn.Close":
+				// a full close ends both directions of that upstream: it is only right for an upstream that cannot
+				// half-close, and only once the client->upstream direction has ended (after the pump's copy)
+				if u := e.Args[0]; u == "up0" || u == "up1" {
+					idx := map[string]int{"up0": 1, "up1": 2}[u]
+					pumpDone := false
+					for _, e2 := range p.Trace[:i] {
+						if e2.Kind == "call" && (e2.What == "io.Copy" || e2.What == "io.CopyBuffer") && len(e2.Args) >= 1 && strings.Contains(e2.Args[0], "io.Discard") {
+							pumpDone = true
+						}
+					}
+					if caps[idx] {
+						p2 = append(p2, fmt.Sprintf("upstream %s supports half-close but is closed completely inside proxy() (in %s): whatever still flows in the other direction is cut", u, e.In))
+					} else if !pumpDone {
+						p2 = append(p2, fmt.Sprintf("upstream %s is closed (in %s) before the client->upstream direction has finished: the client's remaining bytes never reach it", u, e.In))
+					}
+				}
 				upClosed[e.Args[0]] = "Close"
 				lastHalfCloseIdx = i
 			}
